@@ -684,12 +684,63 @@ def tasks_for(tier: str) -> List[Tuple]:
     return tasks
 
 
+ORDER_REPLAY = """
+A, B, C = {a}, {b}, {c}
+qa, qb, qc = {xa!r} * A, {xb!r} * B, {xc!r} * C
+obs = (qa < qb, qb < qc, qc < qa)
+print(qa, '<', qb, ':', obs[0], ' ', qb, '<', qc, ':', obs[1], ' ', qc, '<', qa, ':', obs[2])
+print('sorted:', sorted([qa, qb, qc]), ' and from the other end:', sorted([qc, qb, qa]))
+if all(obs):
+    print('REPRODUCED: a < b < c < a: no assignment of physical values agrees with this order'); sys.exit(1)
+sys.exit(0)
+"""
+
+
+def order_cycle(rep: report.Report, dim: str, named: List[str], core: List[Tuple], cs: List[Tuple]) -> None:
+    """The factors between named units of a dimension admit no consistent sizes (c04's query): then
+    `<`, which compares through those factors, cannot agree with any physical values.  A triple
+    whose factors multiply round to less than 1 gives three quantities with a < b < c < a."""
+    K = {(c[1], c[2]): (Fraction(c[5], c[6]), c[3], c[4]) for c in cs}
+    units = sorted({c[1] for c in core} | {c[2] for c in core})
+    best = None
+    for a, b, c in itertools.permutations(units, 3):
+        if (a, b) in K and (b, c) in K and (c, a) in K:
+            P = K[(a, b)][0] * K[(b, c)][0] * K[(c, a)][0]
+            if P < 1 and (best is None or P < best[0]):
+                best = (P, a, b, c)
+    name = f"order among the named units of {dim} agrees with some assignment of physical values"
+    if best is None or 1 - best[0] < Fraction(1, 10 ** 7):
+        rep.ob("unknown", name + " (no consistent sizes, but no triple whose order is cyclic beyond rounding)", ("order", dim))
+        return
+    P, a, b, c = best
+    d = ((1 / float(P)) ** (1 / 3) - 1) / 2
+    xa = 1.0
+    xb = xa * float(K[(a, b)][0]) * (1 + d)
+    xc = xb * float(K[(b, c)][0]) * (1 + d)
+    rep.ob("sat", name, ("order", dim))
+    rep.violation(f"C12:order:{dim}:" + "|".join(named),
+                  f"{xa!r} {a} < {xb!r} {b} < {xc!r} {c} < {xa!r} {a}: the factors between them multiply round to "
+                  f"{float(P)!r}, so the order agrees with no physical values (units concerned: {named})",
+                  families.REPLAY_IMPORTS + ORDER_REPLAY.format(a=K[(a, b)][1], b=K[(b, c)][1], c=K[(c, a)][1],
+                                                                xa=xa, xb=xb, xc=xc))
+
+
+def named_order(rep: report.Report) -> None:
+    """Order against physical values over ALL named units of a dimension, through c04's sizes query."""
+    from props import c04
+
+    coeffs = c04.named_coefficients()
+    rep.coverage["named_pairs_for_order"] = len(coeffs)
+    c04.sizes_feasibility(rep, coeffs, emit=order_cycle)
+
+
 def main(tier: str, selftest_cases: int = 0) -> int:
     rep = report.Report(PID, tier, "other")
     tasks = families.shuffled(tasks_for(tier), rep.seed)
     results = par.run("props.c12", "worker", tasks)
     work.merge(rep, results)
     hash_witnesses(rep, [tuple(w) for r in results for w in r.get("witness", [])])
+    named_order(rep)
     rep.functions.update(FUNCTIONS)
     rep.coverage["configurations"] = len(tasks)
     rep.coverage["exhaustive"] = True
